@@ -470,7 +470,7 @@ class CookieJar(AbstractCookieJar):
         # Create every combination of (domain, path) pairs.
         pairs = itertools.product(domains, paths)
 
-        path_len = len(request_url.raw_path)
+        raw_path = request_url.raw_path
         # Point 2: https://www.rfc-editor.org/rfc/rfc6265.html#section-5.4
         for p in pairs:
             if p not in self._cookies:
@@ -482,8 +482,9 @@ class CookieJar(AbstractCookieJar):
                 if host_only_key in self._host_only_cookies and domain != hostname:
                     continue
 
-                # Skip edge case when the cookie has a trailing slash but request doesn't.
-                if len(cookie["path"]) > path_len:
+                # The key matched the Path without its trailing slashes: they
+                # must be in the request path as well (RFC 6265 5.1.4).
+                if not raw_path.startswith(cookie["path"]):
                     continue
 
                 if is_not_secure and cookie["secure"]:
